@@ -104,6 +104,24 @@ CreateFollowsCapacity(s, rt) ==
          /\ (lastcap.op.strategy = "EACH" => \A i \in 1..Len(s.nodes) : NewOn(s, s.nodes[i].name) = CapOf(lastcap.percap, s.nodes[i].name))
     ELSE OkMsgs = {}
 
+\* beyond the listed properties: the streaming calls that only read.  Copy: exactly one message per requested (workload,
+\* path), none other; a success carries that path's content; without an injected failure exactly the existing paths of
+\* existing workloads succeed.  Execute: the stream closes; without a failure the output lines are followed by the exit
+\* code as the last message; when the engine refuses, or the exit code cannot be read, an error text and no exit code.
+Pairs == {<<msgs[i].id, msgs[i].path>> : i \in 1..Len(msgs)}
+CopyOK(rt) ==
+    /\ rt.closed /\ Len(msgs) = rt.npairs /\ Cardinality(Pairs) = rt.npairs
+    /\ \A i \in OkMsgs : msgs[i].content = "content-of-" \o msgs[i].path
+    /\ (injected = "none" => \A i \in 1..Len(msgs) : (msgs[i].class = "ok") <=> (msgs[i].known /\ msgs[i].path \in {"/f1", "/f2"}))
+ExitMsgs == {i \in 1..Len(msgs) : msgs[i].exit}
+ExecuteOK(rt) ==
+    /\ rt.closed /\ Cardinality(ExitMsgs) <= 1 /\ (\A i \in ExitMsgs : i = Len(msgs))
+    /\ (injected = "none" =>
+          IF hdr.scenario.op.delta \in {"ok", "exit3"}
+          THEN Len(msgs) = 3 /\ ExitMsgs = {3} /\ msgs[3].code = (IF hdr.scenario.op.delta = "exit3" THEN 3 ELSE 0)
+               /\ msgs[1].data = "line one\n" /\ msgs[2].data = "line two\n"
+          ELSE ExitMsgs = {} /\ Len(msgs) >= 1)
+
 \* C13 after the deployment returned: no marker of the application, counts = recorded
 \* (markers that were already there before the call belong to an earlier deployment of a history)
 NoMarkers(s) == \A i \in 1..Len(s.proc) : s.proc[i].app = hdr.scenario.op.app => \E j \in 1..Len(pre.proc) : pre.proc[j].ident = s.proc[i].ident
@@ -177,6 +195,9 @@ TraceNext ==
                        /\ (IF OpFailed(retv) THEN Report(CoreDiff(pre, e) = "none", "C11", l, "failed-operation-changed-" \o CoreDiff(pre, e) \o "/" \o Where) ELSE TRUE)
                        /\ Report(FailedPartsUntouched(e, retv), "C11", l, "failed-part-changed-its-workload/" \o Where)
                        /\ (IF OpKind = "control" /\ retv.class = "ok" THEN Report(ControlOK(e), "REF", l, "control-changed-records-or-left-wrong-run-state/" \o hdr.scenario.op.delta \o "/" \o Where) ELSE TRUE)
+                       /\ (IF OpKind \in {"copy", "execute"} THEN Report(CoreDiff(pre, e) = "none", "REF", l, OpKind \o "-changed-" \o CoreDiff(pre, e) \o "/" \o Where) ELSE TRUE)
+                       /\ (IF OpKind = "copy" /\ retv.class = "ok" THEN Report(CopyOK(retv), "REF", l, "copy-messages-not-one-per-path-or-untruthful/" \o hdr.scenario.op.delta \o "/" \o Where) ELSE TRUE)
+                       /\ (IF OpKind = "execute" /\ retv.class = "ok" THEN Report(ExecuteOK(retv), "REF", l, "execute-stream-contract/" \o hdr.scenario.op.delta \o "/" \o Where) ELSE TRUE)
                        /\ (IF OpKind = "capacity" THEN Report(CoreDiff(pre, e) = "none", "REF", l, "capacity-query-changed-" \o CoreDiff(pre, e) \o "/" \o Where) ELSE TRUE)
                        /\ (IF OpKind = "capacity" /\ injected = "none" /\ natural = "none" /\ retv.class # "hang" /\ hdr.scenario.op.strategy = "DUMMY" /\ hdr.scenario.op.req \in {"u", "m"}
                            THEN Report(CapacityByMemoryOK(pre, retv), "REF", l, "capacity-by-memory-differs-from-free-memory/" \o hdr.scenario.op.req \o "/" \o retv.class) ELSE TRUE)
